@@ -1,7 +1,7 @@
 \* M: X86.tla against integer arithmetic / BitVec on small instances
 CONSTANTS
   Fault = "none"
-  Vals8 = {0, 1, 2, 7, 8, 15, 16, 85, 127, 128, 129, 170, 200, 240, 254, 255}
+  Vals8 = {0, 1, 7, 8, 15, 16, 85, 127, 128, 129, 200, 255}
   Limbs16 <- LimbPool
 INIT Init
 NEXT Next
